@@ -139,6 +139,15 @@ def check_statement(ctx, s, d, kind):
     if s2 != s1:
         report("nonidempotent", {"s2": s2})
         return
+    # the same fixpoint with pretty printing (the quantifier includes generator options; C07 covers the rest)
+    try:
+        p1 = t1.sql(dialect=d, pretty=True)     # from the normalised tree, like s1 -> s2
+        p2 = sqlglot.parse_one(p1, read=d).sql(dialect=d, pretty=True)
+        ctx.count("pretty_roundtrips")
+        if p2 != p1:
+            ctx.violation(f"nonidempotent-pretty:{dn}:{type(tree).__name__}", {"sql": s, "s1": p1, "s2": p2}, case)
+    except SqlglotError as e:
+        ctx.violation(f"reparse-pretty:{dn}:{type(tree).__name__}", {"sql": s, "error": str(e)[:200]}, case)
     try:
         via = sqlglot.transpile(s, read=d, write=d)[0]
         if via != s1:
